@@ -18,7 +18,7 @@ LEVEL = "model_checking"
 TECHNIQUE = "BMC from reset against a z3 reference model (ideal array + per-port queue of <=2 pending reads); one query per cycle, obligations of earlier cycles as already-proven lemmas; amaranth.sim replay"
 BOUNDS = {
     "quick": "transparent x read_on_resp x {1r1w, 2r2w} x granularity {None,1}, depth 4, 2-bit data, lib.memory.Memory; plus depth 3 (not a power of two) "
-             "and granularity 2 of 4 bits; BMC 7 cycles from reset (6 for 2r2w), all enables/addresses/data/masks",
+             "and granularity 2 of 4 bits and of 2 bits (one granule per row, 1-bit mask); BMC 7 cycles from reset (6 for 2r2w), all enables/addresses/data/masks",
     "thorough": "as quick with BMC 10 (8 for 2r2w); memory_type in {Memory, MultiReadMemory(2r1w), MultiportXORMemory, MultiportXORILVTMemory, "
                 "MultiportOneHotILVTMemory} x transparent x read_on_resp, depth 4 and 8, BMC 8; depths 3,5,8; 3r1w and 1r3w; granularity 1,2",
 }
@@ -65,6 +65,9 @@ def configs(tier, seed):
     # granules wider than one bit together with read_on_resp (the forwarding network has its own mask expansion)
     out.append(_mk(True, True, 1, 1, 2, 6 if q else 9, width=4))
     out.append(_mk(False, True, 1, 1, 2, 6 if q else 9, width=4))
+    # one granule per row (granularity = row width): the one-bit mask must still be honoured
+    out.append(_mk(True, False, 1, 1, 2, 6 if q else 9, width=2))
+    out.append(_mk(False, True, 1, 1, 2, 6 if q else 9, width=2))
     # granularity on the ILVT-based memory types behind a transparent bank (their bypass has its own enable / mask registers)
     out.append(_mk(True, False, 1, 1, 1, 6 if q else 8, mem="MultiportXORILVTMemory"))
     out.append(_mk(True, True, 1, 1, 2, 5 if q else 8, width=4, mem="MultiportOneHotILVTMemory"))
